@@ -1266,6 +1266,10 @@ class Judge:
             if cls == 'ns-prefix-conflict':
                 st['reserialise_undecided_inconsistent_tree'] += 1
                 return True
+            if lb != view(o.B, False, **kw):
+                # fix-up supplied declarations: the re-parsed tree has them as attributes, which are written at their sorted position
+                st['reserialise_undecided_after_fixup'] += 1
+                return True
             if not ents and any(o.A[i][0] == 'SER' and o.A[i + 1][0] == 'EER' for i in range(len(o.A) - 1)):
                 # entities=false drops an entity reference without content: <e></e> the first time, <e/> the second
                 st['reserialise_undecided_empty_entity_reference'] += 1
